@@ -277,7 +277,7 @@ var errTransport = errors.New("connection refused (scripted)")
 func runC19(t *testing.T, tier string) int {
 	t0 := time.Now()
 	sink := &violSink{}
-	statusRuns, envelopeRuns, orderRuns, windowStates := 0, 0, 0, 0
+	statusRuns, envelopeRuns, orderRuns, windowStates, drained := 0, 0, 0, 0, 0
 	outcomes := map[string]int{}
 	var samples []any
 	synctest.Test(t, func(t *testing.T) {
@@ -589,6 +589,34 @@ func runC19(t *testing.T, tier string) int {
 					}
 				}
 			}
+			// ... and whatever the answers were, the pusher keeps going: once the endpoint is
+			// healthy (every further POST gets a 204) each message is pushed again after
+			// its backoff and acknowledged
+			if bad == "" {
+				left := 0
+				for round := 0; round < 12; round++ {
+					for _, p := range rt.openList() {
+						p.answer <- postAnswer{status: 204}
+					}
+					synctest.Wait()
+					left = 0
+					for _, id := range ids {
+						if done, _, _ := env.completed(id); !done {
+							left++
+						}
+					}
+					if left == 0 && len(rt.openList()) == 0 {
+						break
+					}
+					time.Sleep(40 * time.Second)
+					synctest.Wait()
+				}
+				if left > 0 {
+					bad = fmt.Sprintf("the endpoint answers 204 to everything from here on, but %d of %d messages are still unacknowledged (and not being pushed) 8 minutes later", left, len(ids))
+					trace = append(trace, "then 204 to every POST")
+				}
+				drained++
+			}
 			stop()
 			windowStates++
 			if bad != "" {
@@ -624,6 +652,7 @@ func runC19(t *testing.T, tier string) int {
 		"status_answers":                statusRuns,
 		"envelope_corpus":               envelopeRuns,
 		"answer_order_executions":       orderRuns,
+		"answer_orders_followed_by_a_healthy_endpoint": drained,
 		"distinct_outcomes":             outcomes,
 		"exhaustive":                    true,
 		"explanation":                   "the real HttpPushStreamer + MessageStreamer on a scripted http.RoundTripper inside a synctest bubble: (i) one execution per final status 100-599 (fast; slow for a subset, all in thorough) and per transport error, with retry after the backoff; (ii) DFS over every choice of which in-flight POST to answer next and how (200 fast / 200 slow / 500 / transport error) up to the step bound; (iii) BFS over Receive with all fast/slow/nack batch sizes near both window bounds",
